@@ -202,7 +202,7 @@ Theorem dup_copy_ref (oracle : nat -> bool) h F p t :
       h_hooks h' = h_hooks h /\ lib_live h' = lib_live h /\ Closed h' /\ (complete u -> ofail oracle h h')) \/
      (exists tc, r = Some (tid tc) /\ WF h' (F ++ [tc]) /\ (NoLeak h F -> NoLeak h' (F ++ [tc])) /\
         copy_of h' u tc /\ complete u /\
-        Frame (nids (flat_t tc)) (sids (flat_t tc)) h h' /\
+        Ext (nids (flat_t tc)) (sids (flat_t tc)) h h' /\
         h_lnk h' !! tid tc = Some (None, None) /\
         (forall b, b ∈ owned F -> b ∉ owned [tc]) /\
         (forall b, b ∈ owned [tc] -> (h_next h <= b)%positive /\ b ∉ h_live h) /\
@@ -212,4 +212,39 @@ Proof.
   pose proof (src_t_unroll h F W RI AR (Z.to_nat c_CJSON_CIRCULAR_LIMIT) t Hn) as Hsrc.
   rewrite <- (tid_unroll F (Z.to_nat c_CJSON_CIRCULAR_LIMIT) t).
   exact (dup_copy_src oracle h F _ W C Hsrc).
+Qed.
+
+(** * a subtree higher than the limit is refused *)
+Lemma height_list_gt k cs : k < height_list cs -> exists x : tree, x ∈ cs /\ k <= height x.
+Proof.
+  induction cs as [|a r IH]; cbn; intros H; [lia|].
+  destruct (Nat.max_spec (S (height a)) (height_list r)) as [[_ E]|[_ E]]; rewrite E in H.
+  - destruct (IH H) as (x & Hx & Hk). exists x. split; [by right|done].
+  - exists a. split; [by left|lia].
+Qed.
+
+Lemma unroll_cut F k : forall t, k < height t -> ~ complete (unroll F k t).
+Proof.
+  induction k as [|k IH]; intros [i d cs] Hh Hc; rewrite height_unfold in Hh.
+  - cbn [unroll] in Hc. apply complete_root in Hc. cbn in Hc.
+    destruct cs as [|x r]; [cbn in Hh; lia|]. discriminate Hc.
+  - destruct (height_list_gt _ _ Hh) as (x & Hin & Hk).
+    cbn [unroll] in Hc. apply complete_children in Hc.
+    assert (Hkids : kids F (T i d cs) = cs) by (destruct cs; [by apply elem_of_nil in Hin|done]).
+    rewrite Hkids in Hc. rewrite Forall_fmap, Forall_forall in Hc.
+    apply (IH x); [lia|]. by apply Hc.
+Qed.
+
+Theorem dup_too_deep (oracle : nat -> bool) h F p t :
+  WF h F -> Closed h -> refs_in F -> all_readable h F -> find_tree p F = Some t ->
+  Z.to_nat c_CJSON_CIRCULAR_LIMIT < height t ->
+  exists h',
+    cJSON_Duplicate oracle (Some p) true h = Ret (None, h') /\ WF h' F /\ (NoLeak h F -> NoLeak h' F) /\
+    h_lnk h' = h_lnk h /\ h_dat h' = h_dat h /\ h_str h' = h_str h /\ h_live h' = h_live h /\
+    h_hooks h' = h_hooks h /\ lib_live h' = lib_live h /\ Closed h'.
+Proof.
+  intros W C RI AR Hp Hh.
+  destruct (dup_copy_ref oracle h F p t W C RI AR Hp) as (r & h' & Hrun & [H|H]).
+  - destruct H as (-> & H2 & H3 & H4 & H5 & H6 & H7 & H8 & H9 & H10 & _). exists h'. by split_and!.
+  - destruct H as (tc & _ & _ & _ & _ & Hc & _). exfalso. by apply (unroll_cut F _ t Hh).
 Qed.
